@@ -119,9 +119,91 @@ def run_world_prop(prop, tier, seed, replay):
         "bounded: histories of the stated length, <=3 live worlds, <=~12 live entities per world",
         "the strict store model is tied to the code by the drift check in TraceWorld, the verdict comes from the policy-free relations",
     ]
-    finish(prop, tier, seed, level if not replay else level, cov, violations, t0, assumptions, hits)
+    finish(prop, tier, seed, level, cov, violations, t0, assumptions, hits, write=not replay)
+
+# ------------------------------------------------------------------------------------------------
+import pipe_sched
+MC_SCHED = {
+    "quick": [("MCSchedule2.cfg", "all schedules of <=2 tasks over 11 task kinds x 8 world contents, every execution order")],
+    "thorough": [("MCSchedule.cfg", "all schedules of <=3 tasks over 11 task kinds (view kinds, filters, optional views, resources, entry views) x 8 world contents, every execution order"),
+                 ("MCScheduleDup.cfg", "SELF-TEST: the pre-fix duplicate-key behaviour must violate NoConflictingOverlap")],
+}
+SCHED_INV = {"C07": ["ExactlyOnce", "SeqEquivalent"], "C08": ["NoConflictingOverlap"], "C12": ["GreedyParallel", "Termination"]}
+SCHED_TEXT = {
+    "C07": "every task exactly once, conflicting tasks in declared order, final world/resources/per-task observations equal to the sequential run",
+    "C08": "a task is never forked while a task that can touch the same data of a stored entity (through iterator, resource views or entry views) is forked and not yet joined",
+    "C12": "members of one greedy group are forked inside one join region (or started early), and every run reaches the end of run_schedule (watchdog), including 1-thread pools",
+}
+
+def run_mc_sched(tier):
+    key = content_key()
+    name = "mcsched-" + tier
+    r = cache_get(name, key)
+    if r:
+        return r
+    out = []
+    for cfg, desc in MC_SCHED[tier]:
+        res = tlc_mc("MCSchedule.tla", cfg, os.path.join(WORK, "mc", cfg + ".meta"), workers=8, timeout=3000)
+        logp = os.path.join(WORK, "cache", key, "mc-" + cfg + ".log")
+        os.makedirs(os.path.dirname(logp), exist_ok=True)
+        open(logp, "w").write(res["out"])
+        out.append({"cfg": cfg, "desc": desc, "ok": res["ok"], "generated": res["generated"],
+                    "distinct": res["distinct"], "violated": res["violated"], "log": logp, "wall": res["wall"]})
+    cache_put(name, key, out)
+    return out
+
+def run_sched_prop(prop, tier, seed, replay):
+    t0 = time.time()
+    mc = [] if replay else run_mc_sched(tier)
+    res = pipe_sched.run_sched(tier, seed, replay)
+    harness = [f for f in res["fails"] if f["prop"] == "HARNESS"]
+    if harness:
+        raise ToolError("harness/spec disagreement (not a verdict): %s" % harness[:3])
+    fails = [f for f in res["fails"] if f["prop"] == prop]
+    kn = [k for k in load_known().get("known", []) if k["property"] == prop]
+    violations, hits = [], []
+    for f in fails:
+        sig = "%s@%s" % (f["name"], "+".join(f["hdr"].get("names", [])))
+        k = next((k for k in kn if k["signature"] == sig), None)
+        if k:
+            hits.append(k["what"])
+            continue
+        h = f["hdr"]
+        violations.append({"what": "%s: schedule %s (case %s) on world preset %s, mode %s choices %s" %
+                           (f["name"], h.get("names"), h.get("case"), h.get("preset"), h.get("mode"), h.get("choices")),
+                           "replay": f["replay"]})
+    for m in mc:
+        selftest = m["cfg"] == "MCScheduleDup.cfg"
+        if selftest:
+            if m["ok"] or m["violated"] != "NoConflictingOverlap":
+                raise ToolError("self-test failed: the pre-fix model did not violate NoConflictingOverlap")
+            continue
+        if not m["ok"] and (m["violated"] in SCHED_INV[prop] or m["violated"] is None or (prop == "C12" and "emporal" in str(m["violated"]))):
+            violations.append({"what": "model: %s violated in %s" % (m["violated"], m["cfg"]), "replay": m["log"]})
+    real = [m for m in mc if m["cfg"] != "MCScheduleDup.cfg"]
+    cov = {
+        "states": sum(m["distinct"] for m in real) or 1,
+        "transitions": sum(m["generated"] for m in real) or 1,
+        "traces_validated_against_impl": res["runs"],
+        "samples": res["samples"][:1] or [{"note": "no sample"}],
+        "evaluations": res["runs"],
+        "distinct_nontrivial": res["det_runs"],
+        "rule": "one evaluation = one execution of run_schedule on a real World; deterministic-shim runs enumerate every admissible execution order of every generated schedule on 7 world presets (distinct by construction: different choice sequences); rayon runs use real pools of 1/2/4/8 threads",
+        "schedules": res["cases"], "deterministic_order_runs": res["det_runs"], "rayon_runs": res["rayon_runs"],
+        "events": res["events"],
+        "model_instances": [{k: m[k] for k in ("cfg", "desc", "distinct", "generated", "ok", "violated")} for m in mc],
+        "model_invariants": SCHED_INV[prop],
+        "checked": SCHED_TEXT[prop],
+        "exhaustive": False,
+    }
+    assumptions = ["the fork/join shim reports rayon::join faithfully; in deterministic mode it runs closures on one thread",
+                   "task bodies are atomic with respect to the conflict relation (checked structurally, not by timing)",
+                   "schedule family: %d schedules of 2-4 tasks over 17 task kinds" % res["cases"]]
+    finish(prop, tier, seed, "model_checking", cov, violations, t0, assumptions, hits, write=not replay)
 
 def run(prop, tier, seed, replay):
     if prop in WORLD_NOTES:
         return run_world_prop(prop, tier, seed, replay)
+    if prop in SCHED_INV:
+        return run_sched_prop(prop, tier, seed, replay)
     raise ToolError("no check registered for " + prop)
